@@ -1,5 +1,5 @@
 CONSTANTS
-    Chans = {1, 2}
+    Chans = {1}
     MaxCalls = 1
     SrvBudget = 1
     Ops = {"declare"}
